@@ -38,14 +38,14 @@ EXPLANATION = (
     "kill fails the obligation)."
 )
 BOUNDS = [
-    "histories of 2 runs (quick) / 3 runs (thorough) over 3 row tokens; per run one of 7 (rows, batch_size) layouts; reported columns default or widened by 'mcs' per run; threshold in {0,1,2} (concrete per partition: quick 3 threshold pairs, thorough all 9) against symbolic per-token confidence in {0,1,2}; statistics requested or not per run; at most one killed run, crash point k in 0..80 write() calls (covers absent/empty/every chunk prefix/complete)",
+    "histories of 2 runs (quick) / 3 runs (thorough) over 3 row tokens; per run one of 7 (rows, batch_size) layouts; reported columns default or widened by 'mcs' per run; threshold in {0,1,2} (concrete per partition: quick 3 threshold pairs, thorough all 9) against symbolic per-token confidence in {0,1,2}; statistics requested or not per run; at most one killed run, crash point k in 0..80 units, one unit per write() call plus one per byte offset inside a multi-byte UTF-8 character of the chunk (covers absent/empty/every chunk prefix/half-written character/complete); one of the three row tokens contains a non-ASCII character",
 ]
 STUBS = [
     "Balancer.__run_pipeline -> pure function of (row token, threshold): solved = confidence(token) >= threshold, stats = {reaction_cnt, confident_cnt}",
-    "os / open in synrbl.SynUtils.batching -> in-memory file system with nested directories: POSIX truncate-on-open, append-on-write, recursive walk, crash between write() calls",
+    "os / open in synrbl.SynUtils.batching -> in-memory file system with nested directories: POSIX truncate-on-open, files hold bytes (text encoded with the encoding given to open, default assumed UTF-8; read decodes strictly), append-on-write, recursive walk, crash between write() calls and inside multi-byte characters",
     "traceback.print_exc in synrbl.balancing -> no-op",
 ]
-OUTSIDE = ["more than one level of nesting of cache directories", "column-name configuration changes (same mechanism as the threshold: the key hashes only the rows)", "concurrent runs sharing the directory", "partial write() of a single chunk (crash granularity = one write call of json.dump)"]
+OUTSIDE = ["more than one level of nesting of cache directories", "column-name configuration changes (same mechanism as the threshold: the key hashes only the rows)", "concurrent runs sharing the directory", "a write() torn between two ASCII bytes of one chunk (crash granularity = one write call of json.dump, plus every offset inside a multi-byte character)", "locales whose default text encoding is not UTF-8"]
 ASSUMPTIONS = STUBS
 
 
@@ -68,12 +68,19 @@ class MemFS:
 FS = MemFS()
 
 
+def _cuts(b):
+    """byte offsets inside a multi-byte UTF-8 character of b (where a torn write can leave half a character)"""
+    return [i for i in range(1, len(b)) if 0x80 <= b[i] <= 0xBF]
+
+
 class _File:
-    def __init__(self, path, mode):
+    def __init__(self, path, mode, encoding=None):
         self.path = path
         self.mode = mode
+        # text files without an explicit encoding use the locale's, assumed UTF-8
+        self.encoding = encoding or "utf-8"
         if "w" in mode:
-            FS.files[path] = ""
+            FS.files[path] = b""
         elif path not in FS.files:
             raise FileNotFoundError(path)
 
@@ -87,15 +94,22 @@ class _File:
         if FS.writes == FS.kill_at:
             raise Killed()
         FS.writes += 1
-        FS.files[self.path] = FS.files[self.path] + s
+        b = s.encode(self.encoding)
+        # the file holds bytes: a kill can also fall inside a multi-byte character of this chunk
+        for p in _cuts(b):
+            if FS.writes == FS.kill_at:
+                FS.files[self.path] = FS.files[self.path] + b[:p]
+                raise Killed()
+            FS.writes += 1
+        FS.files[self.path] = FS.files[self.path] + b
         return len(s)
 
     def read(self, *a):
-        return FS.files[self.path]
+        return FS.files[self.path].decode(self.encoding)
 
 
 def _open(path, mode="r", *a, **k):
-    return _File(path, mode)
+    return _File(path, mode, k.get("encoding"))
 
 
 class _Path:
@@ -135,15 +149,18 @@ class _NoTB:
         return None
 
 
-TOKENS = ("ra", "rb", "rc")
+# one row token carries a non-ASCII character, so that a cache entry can hold a multi-byte character whenever the
+# code under analysis writes entries unescaped
+RB = "r\u00e9b"
+TOKENS = ("ra", RB, "rc")
 LAYOUTS = [
-    (["ra", "rb"], None),
-    (["ra", "rb"], 1),
-    (["rb", "ra"], 1),
+    (["ra", RB], None),
+    (["ra", RB], 1),
+    ([RB, "ra"], 1),
     (["ra"], None),
-    (["ra", "rb", "rc"], 2),
+    (["ra", RB, "rc"], 2),
     (["ra", "ra"], 1),
-    (["rb", "ra"], None),
+    ([RB, "ra"], None),
 ]
 CONF = {}
 CALLS = [0]
@@ -225,7 +242,7 @@ def h_history(l0: int, l1: int, l2: int, t0: int, t1: int, t2: int, ca: int, cb:
     if "kill_run" in fixed:
         kill_run = fixed["kill_run"]
     CONF.clear()
-    CONF.update({"ra": fixed.get("ca", ca), "rb": fixed.get("cb", cb), "rc": fixed.get("cc", cc)})
+    CONF.update({"ra": fixed.get("ca", ca), RB: fixed.get("cb", cb), "rc": fixed.get("cc", cc)})
     FS.files = {}
     FS.dirs = set()
     tw = PART.get("twin")
